@@ -6,21 +6,27 @@ P=$1; W=$2; ID=${3:-$P}
 cd "$W" || exit 2
 export CARGO_NET_OFFLINE=true
 [ -f seed/patch.diff ] || { echo "no seed/patch.diff"; exit 2; }
-mkdir -p /tmp/seedtmp; cp spindalis/tests/seed_demo.rs /tmp/seedtmp/$ID.rs 2>/dev/null || cp seed/demo.rs /tmp/seedtmp/$ID.rs
-rm -f spindalis/tests/seed_demo.rs
+mkdir -p /tmp/seedtmp
+# where the demonstration lives: spindalis/tests (public API) or spindalis_core/tests (needs the verif hooks)
+PKG=spindalis; FLAGS=""
+if [ -f spindalis_core/tests/seed_demo.rs ]; then PKG=spindalis_core; FLAGS="--cfg spindalis_verif"; fi
+if [ -f spindalis_macros/tests/seed_demo.rs ]; then PKG=spindalis_macros; fi
+DEMO=$PKG/tests/seed_demo.rs
+cp $DEMO /tmp/seedtmp/$ID.rs 2>/dev/null || cp seed/demo.rs /tmp/seedtmp/$ID.rs
+rm -f spindalis/tests/seed_demo.rs spindalis_core/tests/seed_demo.rs spindalis_macros/tests/seed_demo.rs
 # 1. suite with the change
 SUITE=$(cargo test --workspace --no-fail-fast --offline 2>&1 | grep -E "^test result" | awk '{p+=$4; f+=$6} END {print p" passed "f" failed"}')
 echo "suite with change: $SUITE"
 # 2. demo with the change
-cp /tmp/seedtmp/$ID.rs spindalis/tests/seed_demo.rs
-DW=$(cargo test -p spindalis --test seed_demo --offline 2>&1 | grep -E "^test result" | tail -1)
+mkdir -p $PKG/tests; cp /tmp/seedtmp/$ID.rs $DEMO
+DW=$(RUSTFLAGS="$FLAGS" cargo test -p $PKG --test seed_demo --offline 2>&1 | grep -E "^test result|error" | tail -1)
 echo "demo with change: $DW"
 # 3. demo without the change
 git apply -R seed/patch.diff || { echo "cannot reverse patch"; exit 2; }
-DO=$(cargo test -p spindalis --test seed_demo --offline 2>&1 | grep -E "^test result" | tail -1)
+DO=$(RUSTFLAGS="$FLAGS" cargo test -p $PKG --test seed_demo --offline 2>&1 | grep -E "^test result|error" | tail -1)
 echo "demo without change: $DO"
 git apply seed/patch.diff
-rm -f spindalis/tests/seed_demo.rs
+rm -f $DEMO
 # 4. the check
 cd /verif
 OUT=$(VERIF_REPO=$W ./check $P 2>&1 | tail -4); RC=$?
